@@ -112,6 +112,18 @@ pub fn generate(g: &mut Gen) {
             g.push(format!("t.mean {} 2 {} {}", qt(&a), qt(b), qt(&a)), Tol::Tight, &format!("mean/special-operand/{}/{}/k2", label, rank), true);
         }
     }
+    // one-sided and unbounded clamp intervals (an infinite bound on one side, on both), every rank
+    for s in [Shape::Single(6), Shape::Double(2, 3), Shape::Triple(1, 2, 3), Shape::Quadruple(1, 1, 2, 3)] {
+        let a = Tensor { shape: s.clone(), data: match &s {
+            Shape::Single(_) => Data::Single(vec![7.5, -7.5, 0.5, -0.5, 1.0, -1.0]),
+            Shape::Double(..) => Data::Double(vec![vec![7.5, -7.5, 0.5], vec![-0.5, 1.0, -1.0]]),
+            Shape::Triple(..) => Data::Triple(vec![vec![vec![7.5, -7.5, 0.5], vec![-0.5, 1.0, -1.0]]]),
+            _ => Data::Quadruple(vec![vec![vec![vec![7.5, -7.5, 0.5], vec![-0.5, 1.0, -1.0]]]]),
+        } };
+        for (lo, hi) in [(f32::NEG_INFINITY, 1.0f32), (-1.0, f32::INFINITY), (f32::NEG_INFINITY, f32::INFINITY), (f32::NEG_INFINITY, -2.0), (2.0, f32::INFINITY), (f32::MIN, 0.25), (-0.25, f32::MAX)] {
+            g.push(format!("t.clamp {} {} {}", qt(&a), hx(lo), hx(hi)), Tol::Exact, "clamp/one-sided", true);
+        }
+    }
     // mean with no others is refused
     let a = g.tensor_of(&Shape::Single(3), false);
     g.push(format!("t.mean {} 0", qt(&a)), Tol::Exact, "mean/empty", true);
